@@ -41,6 +41,17 @@ impl Duration {
 }
 #[derive(Clone, Copy, Debug, PartialEq, Eq, Structural)]
 pub struct Instant { pub t: u128 }
+impl PartialOrdSpecImpl for Instant {
+    open spec fn obeys_partial_cmp_spec() -> bool { true }
+    open spec fn partial_cmp_spec(&self, other: &Instant) -> Option<CmpOrdering> {
+        if self.t < other.t { Some(CmpOrdering::Less) } else if self.t == other.t { Some(CmpOrdering::Equal) } else { Some(CmpOrdering::Greater) }
+    }
+}
+impl PartialOrd for Instant {
+    fn partial_cmp(&self, other: &Instant) -> (r: Option<CmpOrdering>) {
+        if self.t < other.t { Some(CmpOrdering::Less) } else if self.t == other.t { Some(CmpOrdering::Equal) } else { Some(CmpOrdering::Greater) }
+    }
+}
 impl vstd::std_specs::ops::AddSpecImpl<Duration> for Instant {
     open spec fn obeys_add_spec() -> bool { true }
     open spec fn add_req(self, rhs: Duration) -> bool { self.t + rhs.nanos <= u128::MAX }
